@@ -1924,7 +1924,8 @@ def sequence_to_pianoroll(
         roll[start_frame - 1, note.pitch - min_pitch] = 0.0
         roll_weights[start_frame - 1, note.pitch - min_pitch] = 1.0
 
-  for cc in sequence.control_changes:
+  # In time order, so that the latest change within a frame is the one kept.
+  for cc in sorted(sequence.control_changes, key=lambda cc: cc.time):
     frame, _ = frames_from_times(cc.time, 0)
     if frame < len(control_changes):
       control_changes[frame, cc.control_number] = cc.control_value + 1
